@@ -40,20 +40,25 @@ type Net struct {
 	addr2node map[string]string
 	blocked   map[pair]bool          // data flowing src -> dst is dropped
 	delay     map[pair]time.Duration // added before each write src -> dst
-	cutAfter  map[string]*int64      // key src|dst|chan: bytes readable by src from dst on the NEXT connection
-	conns     map[*conn]struct{}
-	seq       atomic.Int64
-	log       []Event
+	// replyDelay: data sent by src back to dst on a connection that dst dialed
+	// is handed to dst that much later (acknowledgements travel slowly while
+	// requests arrive at once)
+	replyDelay map[pair]time.Duration
+	cutAfter   map[string]*int64 // key src|dst|chan: bytes readable by src from dst on the NEXT connection
+	conns      map[*conn]struct{}
+	seq        atomic.Int64
+	log        []Event
 }
 
 // New returns an empty network (everything connected).
 func New() *Net {
 	return &Net{
-		addr2node: map[string]string{},
-		blocked:   map[pair]bool{},
-		delay:     map[pair]time.Duration{},
-		cutAfter:  map[string]*int64{},
-		conns:     map[*conn]struct{}{},
+		addr2node:  map[string]string{},
+		blocked:    map[pair]bool{},
+		delay:      map[pair]time.Duration{},
+		replyDelay: map[pair]time.Duration{},
+		cutAfter:   map[string]*int64{},
+		conns:      map[*conn]struct{}{},
 	}
 }
 
@@ -138,6 +143,7 @@ func (n *Net) HealAll() {
 	n.mu.Lock()
 	n.blocked = map[pair]bool{}
 	n.delay = map[pair]time.Duration{}
+	n.replyDelay = map[pair]time.Duration{}
 	n.logf("heal", "", "", "", 0)
 	n.mu.Unlock()
 }
@@ -151,6 +157,26 @@ func (n *Net) SetDelay(src, dst string, d time.Duration) {
 		n.delay[pair{src, dst}] = d
 	}
 	n.mu.Unlock()
+}
+
+// SetReplyDelay delays by d everything src sends back to dst on connections
+// that dst dialed (responses, acknowledgements); requests from dst to src are
+// not affected. A response that is still being held back when the link gets
+// blocked is lost. 0 removes the delay.
+func (n *Net) SetReplyDelay(src, dst string, d time.Duration) {
+	n.mu.Lock()
+	if d == 0 {
+		delete(n.replyDelay, pair{src, dst})
+	} else {
+		n.replyDelay[pair{src, dst}] = d
+	}
+	n.mu.Unlock()
+}
+
+func (n *Net) replyDelayOf(src, dst string) time.Duration {
+	n.mu.Lock()
+	defer n.mu.Unlock()
+	return n.replyDelay[pair{src, dst}]
 }
 
 // CutNextAfter arranges that the next connection dialed by src to dst on the
@@ -275,6 +301,11 @@ func (c *conn) Read(p []byte) (int, error) {
 	nr, err := c.Conn.Read(p)
 	if c.cut != nil && nr > 0 {
 		atomic.AddInt64(c.cut, -int64(nr))
+	}
+	if nr > 0 {
+		if d := c.n.replyDelayOf(c.dst, c.src); d > 0 {
+			time.Sleep(d)
+		}
 	}
 	if c.n.isBlocked(c.dst, c.src) {
 		return 0, ErrBlocked
